@@ -336,6 +336,14 @@ class Gen(object):
         oid = self.oid()
         if oid is not None:
             op["oid"] = oid
+        if self.chance(0.1):
+            # the rarely used keyword arguments of create_section
+            paths = [s.get_path() for s in self.secs() if s.parent is not None and
+                     kind_of(self.U.top(s)) == "doc"]
+            op["link"] = self.pick(paths) if (paths and not self.fault()) else \
+                self.pick(["/nope/x", "../zzz", "/a"])
+        if self.chance(0.05):
+            op["repository"] = self.pick(REPOS)
         return op
 
     def g_create_property(self):
@@ -666,6 +674,13 @@ class Gen(object):
         if not self.room(size):
             return None
         return {"op": "clone", "x": self.ref(x), "children": children, "keep_id": self.chance(0.3)}
+
+    def g_template_clone(self):
+        xml = [i for i, ent in enumerate(self.U.files) if ent["backend"] == "xml"]
+        if not xml or not self.room(12):
+            return None
+        return {"op": "template_clone", "f": self.pick(xml), "i": self.rng.randrange(4),
+                "children": self.chance(0.75), "keep_id": self.chance(0.3)}
 
     def g_export_leaf(self):
         x = self.pick(self.nodes())
